@@ -235,7 +235,7 @@ Proof.
     destruct (seg_write (w_dst (st_w st)) (p_seg p) addr _) as [m1| |] eqn:EW; cbn [bind] in ES; try discriminate.
     apply Ok_inj in ES. subst w1.
     assert (Ln : zlen (le_encode (Z.to_nat n) v) = n) by (apply zlen_le_encode; lia).
-    destruct (struct_view_geom _ _ _ p H Vw Hval Ek) as [E0|(ho & Hin & Eseg & D0 & P0 & Olo & Ohi & _)].
+    destruct (struct_view_geom _ _ _ p H Vw Hval Ek) as [[E0 _]|(ho & Hin & Eseg & D0 & P0 & Olo & Ohi & _)].
     { exfalso. rewrite E0 in EE. cbn [DataSize] in EE. unfold u32 in EE. destruct (p_valid p); cbn in EE; [lia|discriminate]. }
     destruct (obj_bounds _ _ _ _ H Hin) as (B1 & B2 & B3 & B4 & B5). rewrite Eseg in *.
     assert (Eu : u32 (off + n) = off + n) by (unfold u32; lia).
@@ -255,7 +255,7 @@ Proof.
     destruct (as_struct_valid p Hval) as [Eas Ek]. rewrite Eas in *.
     unfold set_in, lift0, struct_set_bit in ES.
     destruct (negb (p_valid p && (n <? u32 (DataSize (p_size p) * 8)))) eqn:EE; [discriminate|].
-    destruct (struct_view_geom _ _ _ p H Vw Hval Ek) as [E0|(ho & Hin & Eseg & D0 & P0 & Olo & Ohi & _)].
+    destruct (struct_view_geom _ _ _ p H Vw Hval Ek) as [[E0 _]|(ho & Hin & Eseg & D0 & P0 & Olo & Ohi & _)].
     { exfalso. rewrite E0 in EE. cbn [DataSize] in EE. change (u32 (0 * 8)) with 0 in EE. destruct (p_valid p); cbn in EE; [lia|discriminate]. }
     destruct (obj_bounds _ _ _ _ H Hin) as (B1 & B2 & B3 & B4 & B5). rewrite Eseg in *.
     assert (Hnb : n < DataSize (p_size p) * 8) by (unfold u32 in EE; destruct (p_valid p); cbn in EE; [lia|discriminate]).
@@ -338,7 +338,7 @@ Proof.
     assert (Hval : p_valid (as_struct p) = true) by (destruct (p_valid (as_struct p)); auto; discriminate).
     destruct (as_struct_valid p Hval) as [Eas Ek]. rewrite Eas in *.
     destruct (hget_view st objs pads h S) as [Vw _]. rewrite EH in Vw. cbn [snd] in Vw.
-    destruct (struct_view_geom _ _ _ p H Vw Hval Ek) as [E0|(ho & Hin & Eseg & D0 & P0 & Olo & Ohi & _ & Hsl)].
+    destruct (struct_view_geom _ _ _ p H Vw Hval Ek) as [[E0 _]|(ho & Hin & Eseg & D0 & P0 & Olo & Ohi & _ & Hsl)].
     { exfalso. rewrite E0 in EE. cbn [PointerCount] in EE. rewrite Hval in EE. cbn [negb orb] in EE. lia. }
     destruct (obj_bounds _ _ _ _ H Hin) as (B1 & B2 & B3 & B4 & B5). rewrite Eseg in *.
     assert (PA : pointerAddress p i = p_off p + DataSize (p_size p) + 8 * i).
